@@ -482,6 +482,25 @@ func genSpec(r *run.Rand, thorough bool, known knownFn) *Spec {
 	poolA := keyPool(r, nA, thorough, okA)
 	poolB := keyPool(r, nB, thorough, okB)
 
+	// ---- bound the corpus size (long keys x many lines): the check is about counts, not throughput
+	{
+		avg := 40
+		for _, pool := range [][]string{poolA, poolB} {
+			t := 0
+			for _, k := range pool {
+				t += len(k)
+			}
+			avg += t / len(pool)
+		}
+		budget := 2 << 20
+		if thorough {
+			budget = 5 << 20
+		}
+		if nLines*avg > budget {
+			nLines = budget/avg + 1
+		}
+	}
+
 	// ---- lines
 	incOf := func() string {
 		switch incMode {
@@ -549,6 +568,39 @@ func genSpec(r *run.Rand, thorough bool, known knownFn) *Spec {
 				l.F[5] = "skip"
 			}
 			s.Lines = append(s.Lines, l)
+		}
+	}
+	if incMode == "bad" && r.Intn(3) == 0 {
+		// exactly one line with a non-numeric increment / number (the smallest thing that must still exit 2)
+		first := true
+		for i := range s.Lines {
+			l := &s.Lines[i]
+			if l.Kind != 'L' {
+				continue
+			}
+			_, okI := parseInc(l.F[3])
+			_, okN := parseNum(l.F[4])
+			if okI && okN {
+				continue
+			}
+			if first && !okI && !okN {
+				first = false
+				continue
+			}
+			if !okI {
+				l.F[3] = "3"
+			}
+			if !okN {
+				l.F[4] = "4"
+			}
+		}
+		if first {
+			for i := range s.Lines {
+				if s.Lines[i].Kind == 'L' {
+					s.Lines[i].F[3], s.Lines[i].F[4] = "x1", "n/a"
+					break
+				}
+			}
 		}
 	}
 	if r.Intn(25) == 0 { // nothing matches at all: exit status 1
@@ -655,6 +707,12 @@ func genSpec(r *run.Rand, thorough bool, known knownFn) *Spec {
 				// truncation keeps the last --cols columns in --sort-cols order and drops the rest;
 				// only a name-based total order makes that independent of render timing
 				s.Trunc = true
+				if n := len(ag.cols); n >= 2 && r.Intn(4) != 0 {
+					// make sure something is cut off
+					s.Cols = r.Range(1, n-1)
+					s.CmdArgs = dropFlag(s.CmdArgs, "--cols")
+					s.CmdArgs = append(s.CmdArgs, "--cols", strconv.Itoa(s.Cols))
+				}
 				colSort = r.Pick([]string{"text", "text:desc", "text:asc", "text:reverse"})
 				s.TruncDesc = colSort == "text:desc" || colSort == "text:reverse"
 			}
@@ -746,6 +804,15 @@ func genReduce(r *run.Rand, s *Spec, known knownFn) {
 	if r.Intn(3) == 0 {
 		s.OrderSensitive = true
 		kinds = append(kinds, "cat", "last", "cat")
+		// concatenation is quadratic in the number of matches: keep these corpora small
+		total := 0
+		for i := range s.Lines {
+			total += len(s.Lines[i].F[1]) + len(s.Lines[i].F[2]) + 8
+			if i >= 400 || total > 48<<10 {
+				s.Lines = s.Lines[:i+1]
+				break
+			}
+		}
 	}
 	na := r.Range(1, 4)
 	used := map[string]bool{}
@@ -942,6 +1009,19 @@ func (s *Spec) hash() string {
 		sb.WriteByte('\n')
 	}
 	return run.Hash64(sb.String())
+}
+
+// dropFlag removes "flag value" from an argument list.
+func dropFlag(args []string, flag string) []string {
+	var out []string
+	for i := 0; i < len(args); i++ {
+		if args[i] == flag && i+1 < len(args) {
+			i++
+			continue
+		}
+		out = append(out, args[i])
+	}
+	return out
 }
 
 func sortedKeys[V any](m map[string]V) []string {
